@@ -94,6 +94,9 @@ def templates3d(tier):
         tpl("pt", (4.25, 3.5, 0.25), occ=[body((1.5, -14, 0), (20, 0.5, 3), (1, 0, 0))], name="long wall mostly behind the viewer, target beyond its front end"),
         tpl("pt", (0.25, 5.5, 0.25), occ=[body((0, 11.5, 0), (4, 5, 4)), body((-13, 3, 0), (16, 0.5, 3))], name="thick slab containing the far range boundary (target in front), then a long wall from the left"),
         tpl("box", (0, 6, 0), (0.5, 0.75, 0.25), (1, 0, 0), occ=[body((-14, 3, 0), (0.5, 16, 6), (1, 0, 0))], name="box walled off by a long wall, centre far to the left", dens=1),
+        # elongated TARGETS: the near end is in range but outside the angular window, the part inside the window is out of range
+        tpl("box", (6.5, 6.5, 0), (0.25, 7.5, 0.25), name="long bar to the right: near end outside a 90 window, the rest beyond distance 8"),
+        tpl("box", (0, 6.5, 6.5), (7.5, 0.25, 0.25), (1, 0, 0), name="long bar overhead: near end above a 90 vertical window, the rest beyond distance 8"),
     ]
     if tier == "thorough":
         T += [
